@@ -399,6 +399,9 @@ CasesC12(lazy) ==
                    \o (IF pos = 3 THEN <<Single("$repeat", I(NatStr(n)))>> ELSE <<>>))>>, NoEnv, "rootlistpos") : n \in Counts, pos \in {2, 3}}
   \cup {Case(<<L(<<S("$repeat"), S("$\"e{$repeat}\"")>>), L(<<Single("$repeat", I(NatStr(n)))>>)>>, NoEnv, "rootlistlayer") : n \in Counts}
   \cup {Case(<<L(<<I("7"), Single("$repeat", I(NatStr(n)))>>)>>, NoEnv, "rootlistplain") : n \in Counts}
+  (* the count of a LIST document is its marker entry: the layer above addresses it by a pattern naming the directive *)
+  \cup {CaseX(<<L(<<Single("$repeat", I("2")), S("$repeat"), S("$\"e{$repeat}\"")>>), L(<<Mk2("$match", Single("$repeat", I("2")), "$repeat", I(NatStr(n)))>>)>>, NoEnv, "rootlistoverride", n) : n \in Counts \ {2}}
+  \cup {CaseX(<<L(<<Single("$repeat", I("2")), S("x")>>), L(<<Single("$delete", Single("$repeat", I("2")))>>)>>, NoEnv, "rootlistoverride", 1) : dummy \in {1}}
   \cup {Case(<<Body12 %% Single("$repeat", I("1")), Single("$repeat", I(NatStr(n)))>>, NoEnv, "override") : n \in Counts}
   \cup {Case(<<Nest12(n, m)>>, NoEnv, "nested") : n \in 0..2, m \in 0..2}
   \cup {Case(<<Single("l", L(<<Mk3("$repeat", I(NatStr(n)), "in", L(<<Mk2("$repeat", I("2"), "j", S("$repeat"))>>), "out", S("$repeat"))>>))>>, NoEnv, "nestedlist") : n \in 0..2}
@@ -446,6 +449,9 @@ LawC12(cs) ==
          LET m == Merge(cs.docs[1], cs.docs[2])
              k == CountOf(At(Elems(cs.docs[2])[1], "$repeat")) IN
          m.ok /\ Eval1(m.v) = Ok([i \in 1..k |-> L(<<I(NatStr(i - 1)), S("e" \o NatStr(i - 1))>>)])
+    [] cs.tag = "rootlistoverride" ->
+         LET m == Merge(cs.docs[1], cs.docs[2]) IN
+         m.ok /\ Len(Eval1(m.v).v) = cs.aux
     [] cs.tag = "rootlistplain" ->
          LET k == CountOf(At(Elems(d)[2], "$repeat")) IN
          Eval1(d) = Ok([i \in 1..k |-> L(<<I("7")>>)])
@@ -550,7 +556,8 @@ Vals14 == { S("abc"), S(""), I("42"), F("1.5"), True, EmptyList, EmptyMap,
             Mk2("inc", L(<<L(<<S("a"), S("b")>>), S("c")>>), "k", L(<<L(<<I("1"), I("2")>>), EmptyList, S("")>>)),
             (* doubles that need all 17 digits, the double range, and an integer beyond 2^53 *)
             L(<<S("pi"), F("3.141592653589793"), F("1e+300"), F("1.67772175e+07"), I("9007199254740993")>>) }
-Structural == {"join", "join:,", "join: - ", "prefix:--", "prefix:", "flatten", "tolist:=", "tolist::", "values", "flags"}
+(* "prefix:%s=": the argument is text, never a format *)
+Structural == {"join", "join:,", "join: - ", "prefix:--", "prefix:", "prefix:%s=", "flatten", "tolist:=", "tolist::", "values", "flags"}
 Malformed == {"join:a:b", "prefix", "prefix:a:b", "flatten:x", "tolist", "tolist:a:b", "values:x", "base64:x", "sha256:1", "json:x", "bogus", ""}
 Codecs14 == {"base64", "sha256", "json", "yaml", "toml"}
 Trans14 == Structural \cup Malformed \cup Codecs14
@@ -657,7 +664,7 @@ LawC08(cs) ==
 (* harness replays each vector). A pair is part of the family of either       *)
 (* feature.                                                                   *)
 PairCtx == Mk2("src", Mk2("p", I("1"), "q", L(<<I("1"), I("2")>>)), "n", I("5"))
-Frags == {"mergestr", "mergemap", "replacemap", "listmerge", "repeatlist", "repeatmap", "outtrue", "outfalse",
+Frags == {"strayrepeat", "mergestr", "mergemap", "replacemap", "listmerge", "repeatlist", "repeatmap", "outtrue", "outfalse",
           "encode", "enclist", "interp", "required", "value", "escaped", "delete", "plainmap", "plainlist"}
 Frag(f) ==
   CASE f = "mergestr" -> S("$merge:src")
@@ -675,6 +682,7 @@ Frag(f) ==
     [] f = "value" -> Single("$value", I("3"))
     [] f = "escaped" -> S("$$lit")
     [] f = "delete" -> S("$delete")
+    [] f = "strayrepeat" -> S("$\"n{$repeat}\"")      \* a repeat variable outside every repeat: an error wherever it stands
     [] f = "plainmap" -> Mk2("p", I("7"), "r", I("8"))
     [] f = "plainlist" -> L(<<I("7")>>)
 FamilyOf(f) ==
@@ -710,17 +718,39 @@ PairSkip(rel, a, b) ==
 PairFor(fam) ==
   UNION {{Case(PairDoc(rel, ab[1], ab[2]), NoEnv, rel) : rel \in {x \in PairRels : ~PairSkip(x, ab[1], ab[2])}}
          : ab \in {x \in Frags \X Frags : FamilyOf(x[1]) = fam \/ FamilyOf(x[2]) = fam}}
+(* what an UPPER layer can put over a feature: replacement, deletion, patterns on entries, null, empty  *)
+(* containers, a marker, a plain value (relation "pairupper": two layers of the key "a")               *)
+Uppers == {"replacemap", "replacelist", "deleteentry", "matchentry", "null", "deletestr", "emptymap", "emptylist", "reqlist", "scalar", "samekeys"}
+UpperFrag(u) ==
+  CASE u = "replacemap" -> Mk2("$replace", True, "n2", I("1"))
+    [] u = "replacelist" -> L(<<I("5"), Single("$replace", True)>>)
+    [] u = "deleteentry" -> L(<<Single("$delete", I("9"))>>)
+    [] u = "matchentry" -> L(<<Mk2("$match", I("7"), "$value", I("70"))>>)
+    [] u = "null" -> Null
+    [] u = "deletestr" -> S("$delete")
+    [] u = "emptymap" -> EmptyMap
+    [] u = "emptylist" -> EmptyList
+    [] u = "reqlist" -> L(<<S("$required")>>)
+    [] u = "scalar" -> I("4")
+    [] u = "samekeys" -> Mk2("own", I("2"), "o", I("2"))
+PairUpper(fam) ==
+  {Case(<<PairCtx %% Single("a", Frag(a)), Single("a", UpperFrag(u))>>, NoEnv, "pairupper") : a \in {x \in Frags : FamilyOf(x) = fam}, u \in Uppers}
+(* the deeper bound: three features - b inside a, c as a sibling, and a reference to the whole of a *)
+PairTriple(fam) ==
+  IF Bound < 2 THEN {}
+  ELSE {Case(<<PairCtx %% Mk3("a", Inside(t[1], t[2]), "b", Frag(t[3]), "z", S("$merge:a"))>>, NoEnv, "pairtriple")
+          : t \in {x \in Frags \X Frags \X Frags : FamilyOf(x[1]) = fam /\ ~PairSkip("pairin", x[1], x[2])}}
 PairFamilies == {"C06", "C07", "C10", "C11", "C12", "C13", "C14"}
 
 Cases0 == CASE Family = "C14" -> CasesC14(0) [] Family = "C08" -> CasesC08(0) [] Family = "C06" -> CasesC06(0) [] Family = "C07" -> CasesC07(0) [] Family = "C10" -> CasesC10(0)
            [] Family = "C11" -> CasesC11(0) [] Family = "C12" -> CasesC12(0) [] Family = "C13" -> CasesC13(0)
-Cases == IF Family \in PairFamilies THEN Cases0 \cup PairFor(Family) ELSE Cases0
-Law(cs) == IF cs.tag \in PairRels THEN TRUE ELSE
+Cases == IF Family \in PairFamilies THEN Cases0 \cup PairFor(Family) \cup PairUpper(Family) \cup PairTriple(Family) ELSE Cases0
+Law(cs) == IF cs.tag \in PairRels \cup {"pairupper", "pairtriple"} THEN TRUE ELSE
            CASE Family = "C14" -> LawC14(cs) [] Family = "C08" -> LawC08(cs) [] Family = "C06" -> LawC06(cs) [] Family = "C07" -> LawC07(cs) [] Family = "C10" -> LawC10(cs)
              [] Family = "C11" -> LawC11(cs) [] Family = "C12" -> LawC12(cs) [] Family = "C13" -> LawC13(cs)
 
 (* chains (C06 layered, C07, C12 override) are layered first, as two layers of one file chain *)
-IsChain(cs) == cs.tag \in {"layered", "chain07", "override", "rootlistlayer", "pairlayer", "markerlayer"} \/ (Family = "C07" /\ cs.tag \notin PairRels)
+IsChain(cs) == cs.tag \in {"layered", "chain07", "override", "rootlistlayer", "rootlistoverride", "pairlayer", "markerlayer", "pairupper"} \/ (Family = "C07" /\ cs.tag \notin PairRels \cup {"pairtriple"})
 Result(cs) ==
   IF IsChain(cs) THEN
      LET m == LayerAll(cs.docs) IN
